@@ -13,6 +13,12 @@
 (*             with a termination interrupt once it polls a cancelled      *)
 (*             context (every <= 50 instructions; one step here)           *)
 (*   canceller the host cancelling the context at any moment               *)
+(*   joiner    a core inside `h.join()` (vm.go threadHandle): it waits     *)
+(*             until the thread has executed its last instruction (its     *)
+(*             `finished` channel is closed right before the hand-off of   *)
+(*             the result) or until the context is cancelled               *)
+(*   watcher   a host goroutine inside WaitNonConsuming: it looks at the   *)
+(*             length of the core list until it sees an empty one          *)
 (*                                                                         *)
 (* Shared state                                                            *)
 (*   list      the core list (VM.Cores.Cores)                              *)
@@ -40,16 +46,27 @@ CONSTANTS Variant,      \* "orig" | "fixed"
           StrictCancel, \* schedule export only: a core that could have seen the cancellation does nothing but offer
                         \* "term" (the real core polls at quantum boundaries, so it may still do a little more;
                         \* FALSE = the permissive model used for checking and trace validation)
-          RecordHist    \* keep the schedule in `hist` (only for schedule export by simulation)
+          RecordHist,   \* keep the schedule in `hist` (only for schedule export by simulation)
+          MaxJoins,     \* how many joins are begun in total
+          JoinParentOnly, \* only the spawner of a thread joins it (a handle contains a function and so cannot be passed
+                        \* to another thread; it can only get there through a global: FALSE when validating traces)
+          Watch         \* "none" | "orig" | "fixed": WaitNonConsuming as found / as repaired
 
 VARIABLES list, rw, cst, res, work, cancelled, spawned, fatals,
           w,        \* the waiter's local state (a record, see WInit)
           sp,       \* spawn in progress per spawner: [who |-> 0 (host) | c, st |-> "idle"|"locked"|"appended"|"unlocked", new |-> id]
           calls,    \* SpawnSync calls started so far
           ret,      \* what the last Wait returned: [k |-> "none"] | [k |-> "nil"] | [k |-> "err", c, i]
-          hist
+          hist,
+          par,      \* who spawned a core (0 = the host)
+          jn,       \* the join a core is in: [d |-> thread, st |-> "none" | "wait" | "failed" | "out"]
+          joins,    \* joins begun so far
+          wt        \* the watcher: [pc |-> "off" | "look" | "locked" | "ret", seen |-> length last seen (-1: none), n |-> read locks held,
+                    \* z |-> (trace validation only, where several watchers share this record) looks which saw an empty list and
+                    \* whose watcher has not returned yet]
 
-vars == <<list, rw, cst, res, work, cancelled, spawned, fatals, w, sp, calls, ret, hist>>
+ext == <<par, jn, joins, wt>>
+vars == <<list, rw, cst, res, work, cancelled, spawned, fatals, w, sp, calls, ret, hist, par, jn, joins, wt>>
 
 Cores == 1..MaxCores
 Spawners == 0..MaxCores      \* 0 is the host
@@ -59,6 +76,8 @@ H(p, a) == hist' = IF RecordHist THEN Append(hist, <<p, a>>) ELSE hist
 WIdle == [pc |-> "idle", snap |-> <<>>, i |-> 0, new |-> <<>>, got |-> 0, goti |-> "nil", drain |-> FALSE,
           fc |-> 0, fi |-> "nil"]     \* fc/fi: the first interrupt seen (fixed variant)
 
+NoJoin == [d |-> 0, st |-> "none"]
+
 Init ==
     /\ list = <<>> /\ rw = [r |-> 0, w |-> FALSE]
     /\ cst = [c \in Cores |-> "unborn"] /\ res = [c \in Cores |-> "nil"]
@@ -67,6 +86,8 @@ Init ==
     /\ w = WIdle
     /\ sp = [s \in Spawners |-> [st |-> "idle", new |-> 0]]
     /\ calls = 0 /\ ret = [k |-> "none"] /\ hist = <<>>
+    /\ par = [c \in Cores |-> 0] /\ jn = [c \in Cores |-> NoJoin] /\ joins = 0
+    /\ wt = [pc |-> IF Watch = "none" THEN "off" ELSE "look", seen |-> -1, n |-> 0, z |-> 0]
 
 NextId == Cardinality({c \in Cores : cst[c] # "unborn"}) + Cardinality({s \in Spawners : sp[s].st \in {"locked"}}) + 1
 CoreRemove(s, c) == SelectSeq(s, LAMBDA x : x # c)
@@ -75,7 +96,7 @@ CoreRemove(s, c) == SelectSeq(s, LAMBDA x : x # c)
 (* spawnCore + spawnCoreInternal, executed by spawner s (host or a core)   *)
 CanSpawn(s) ==
     IF s = 0 THEN w.pc = "idle" /\ calls < MaxCalls /\ sp[0].st = "idle"
-    ELSE cst[s] = "run" /\ spawned < MaxSpawns /\ sp[s].st = "idle" /\ (StrictCancel => ~cancelled)
+    ELSE cst[s] = "run" /\ spawned < MaxSpawns /\ sp[s].st = "idle" /\ (StrictCancel => ~cancelled) /\ jn[s].st = "none"
 
 SpawnLock(s) ==          \* self.Cores.Lock.Lock()
     /\ CanSpawn(s) /\ sp[s].st = "idle"
@@ -85,7 +106,7 @@ SpawnLock(s) ==          \* self.Cores.Lock.Lock()
     /\ sp' = [sp EXCEPT ![s] = [st |-> "locked", new |-> 0]]
     /\ IF s = 0 THEN calls' = calls + 1 /\ spawned' = spawned ELSE spawned' = spawned + 1 /\ calls' = calls
     /\ H(s, "SpawnLock")
-    /\ UNCHANGED <<list, cst, res, work, cancelled, fatals, w, ret>>
+    /\ UNCHANGED <<list, cst, res, work, cancelled, fatals, w, ret>> /\ UNCHANGED ext
 
 SpawnAppend(s) ==        \* self.Cores.Cores = append(...); coreCnt++
     /\ sp[s].st = "locked"
@@ -93,15 +114,16 @@ SpawnAppend(s) ==        \* self.Cores.Cores = append(...); coreCnt++
         /\ list' = Append(list, id)
         /\ cst' = [cst EXCEPT ![id] = "listed"]
         /\ sp' = [sp EXCEPT ![s] = [st |-> "appended", new |-> id]]
+        /\ par' = IF JoinParentOnly THEN [par EXCEPT ![id] = s] ELSE par      \* (only kept where it is used)
     /\ H(s, "SpawnAppend")
-    /\ UNCHANGED <<rw, res, work, cancelled, spawned, fatals, w, calls, ret>>
+    /\ UNCHANGED <<rw, res, work, cancelled, spawned, fatals, w, calls, ret, jn, joins, wt>>
 
 SpawnUnlock(s) ==        \* deferred Unlock()
     /\ sp[s].st = "appended"
     /\ rw' = [rw EXCEPT !.w = FALSE]
     /\ sp' = [sp EXCEPT ![s].st = "unlocked"]
     /\ H(s, "SpawnUnlock")
-    /\ UNCHANGED <<list, cst, res, work, cancelled, spawned, fatals, w, calls, ret>>
+    /\ UNCHANGED <<list, cst, res, work, cancelled, spawned, fatals, w, calls, ret>> /\ UNCHANGED ext
 
 SpawnGo(s) ==            \* go func() { core.Run(...) }()
     /\ sp[s].st = "unlocked"
@@ -110,18 +132,18 @@ SpawnGo(s) ==            \* go func() { core.Run(...) }()
     /\ IF s = 0 THEN w' = [WIdle EXCEPT !.pc = "start"] ELSE w' = w     \* SpawnSync goes on to Wait
     /\ IF s = 0 THEN ret' = [k |-> "none"] ELSE ret' = ret
     /\ H(s, "SpawnGo")
-    /\ UNCHANGED <<list, rw, res, work, cancelled, spawned, fatals, calls>>
+    /\ UNCHANGED <<list, rw, res, work, cancelled, spawned, fatals, calls>> /\ UNCHANGED ext
 
 -----------------------------------------------------------------------------
 (* A core: up to 50 instructions, then the poll of the context *)
 CoreWork(c) ==
-    /\ cst[c] = "run" /\ sp[c].st = "idle" /\ work[c] > 0 /\ ~cancelled
+    /\ cst[c] = "run" /\ sp[c].st = "idle" /\ work[c] > 0 /\ ~cancelled /\ jn[c].st = "none"
     /\ work' = [work EXCEPT ![c] = work[c] - 1]
     /\ H(c, "Quantum")
-    /\ UNCHANGED <<list, rw, cst, res, cancelled, spawned, fatals, w, sp, calls, ret>>
+    /\ UNCHANGED <<list, rw, cst, res, cancelled, spawned, fatals, w, sp, calls, ret>> /\ UNCHANGED ext
 
-CoreOffer(c) ==          \* self.SignalHandle <- i   (the send blocks until Wait receives)
-    /\ cst[c] = "run" /\ sp[c].st = "idle"
+CoreOffer(c) ==          \* close(self.finished); self.SignalHandle <- i   (the send blocks until Wait receives)
+    /\ cst[c] = "run" /\ sp[c].st = "idle" /\ jn[c].st = "none"
     \* a termination interrupt needs a cancelled context; the program's own outcome (nil / fatal) may
     \* still come first when the core finishes within its current quantum
     /\ \/ /\ cancelled /\ res' = [res EXCEPT ![c] = "term"] /\ fatals' = fatals
@@ -129,13 +151,72 @@ CoreOffer(c) ==          \* self.SignalHandle <- i   (the send blocks until Wait
        \/ /\ fatals < MaxFatal /\ (StrictCancel => ~cancelled) /\ res' = [res EXCEPT ![c] = "fatal"] /\ fatals' = fatals + 1
     /\ cst' = [cst EXCEPT ![c] = "offer"]
     /\ H(c, "Offer")
-    /\ UNCHANGED <<list, rw, work, cancelled, spawned, w, sp, calls, ret>>
+    /\ UNCHANGED <<list, rw, work, cancelled, spawned, w, sp, calls, ret>> /\ UNCHANGED ext
+
+-----------------------------------------------------------------------------
+(* h.join(): the builtin behind the handle which `spawn` evaluates to       *)
+Ended(d) == cst[d] \in {"offer", "done"}      \* `finished` is closed right before the hand-off
+
+JoinBegin(c, d) ==       \* select { case <-thread.finished: case <-ctx.Done(): }  is entered
+    /\ cst[c] = "run" /\ sp[c].st = "idle" /\ jn[c].st = "none" /\ (StrictCancel => ~cancelled)
+    /\ cst[d] # "unborn" /\ c # d /\ joins < MaxJoins
+    /\ JoinParentOnly => par[d] = c
+    /\ jn' = [jn EXCEPT ![c] = [d |-> d, st |-> "wait"]] /\ joins' = joins + 1
+    /\ H(d, "JoinBegin")
+    /\ UNCHANGED <<list, rw, cst, res, work, cancelled, spawned, fatals, w, sp, calls, ret, par, wt>>
+
+JoinEnd(c) ==            \* the thread has ended normally: its result is taken, the joiner goes on
+    /\ jn[c].st = "wait" /\ Ended(jn[c].d) /\ res[jn[c].d] = "nil"
+    /\ jn' = [jn EXCEPT ![c] = NoJoin]
+    /\ H(jn[c].d, "JoinEnd")
+    /\ UNCHANGED <<list, rw, cst, res, work, cancelled, spawned, fatals, w, sp, calls, ret, par, joins, wt>>
+
+JoinFailed(c) ==         \* the thread ended with an interrupt: there is no result; the joiner waits for the cancellation
+    /\ jn[c].st = "wait" /\ Ended(jn[c].d) /\ res[jn[c].d] # "nil"         \* which Wait issues when it gets that interrupt
+    /\ jn' = [jn EXCEPT ![c].st = "failed"]
+    /\ H(jn[c].d, "JoinFailed")
+    /\ UNCHANGED <<list, rw, cst, res, work, cancelled, spawned, fatals, w, sp, calls, ret, par, joins, wt>>
+
+JoinCancelled(c) ==      \* the context is cancelled while the joiner waits
+    /\ jn[c].st = "wait" /\ cancelled
+    /\ jn' = [jn EXCEPT ![c].st = "out"]
+    /\ H(jn[c].d, "JoinCancelled")
+    /\ UNCHANGED <<list, rw, cst, res, work, cancelled, spawned, fatals, w, sp, calls, ret, par, joins, wt>>
+
+JoinOffer(c) ==          \* join returned a termination interrupt: the core ends with it
+    /\ jn[c].st \in {"out", "failed"} /\ cancelled /\ cst[c] = "run"
+    /\ cst' = [cst EXCEPT ![c] = "offer"] /\ res' = [res EXCEPT ![c] = "term"]
+    /\ jn' = [jn EXCEPT ![c] = NoJoin]
+    /\ H(c, "Offer")
+    /\ UNCHANGED <<list, rw, work, cancelled, spawned, fatals, w, sp, calls, ret, par, joins, wt>>
+
+JoinStep(c) == (\E d \in Cores : JoinBegin(c, d)) \/ JoinEnd(c) \/ JoinFailed(c) \/ JoinCancelled(c) \/ JoinOffer(c)
+
+-----------------------------------------------------------------------------
+(* WaitNonConsuming                                                         *)
+WatchRLock ==            \* RLock(); remaining := len(self.Cores.Cores)
+    /\ wt.pc = "look" /\ ~rw.w
+    /\ Watch = "orig" => wt.n < 3                   \* (orig takes one more read lock per round: bounded here)
+    /\ rw' = [rw EXCEPT !.r = rw.r + 1]
+    /\ wt' = [pc |-> IF Watch = "orig" THEN (IF Len(list) = 0 THEN "locked" ELSE "look") ELSE "locked",
+              seen |-> Len(list), n |-> wt.n + 1, z |-> 0]
+    /\ H(-2, "WatchRLock")
+    /\ UNCHANGED <<list, cst, res, work, cancelled, spawned, fatals, w, sp, calls, ret, par, jn, joins>>
+
+WatchRUnlock ==          \* fixed: RUnlock() after every look; orig: all deferred RUnlock()s, when it returns
+    /\ wt.pc = "locked"
+    /\ rw' = [rw EXCEPT !.r = rw.r - wt.n]
+    /\ wt' = [wt EXCEPT !.pc = IF wt.seen = 0 THEN "ret" ELSE "look", !.n = 0]
+    /\ H(-2, "WatchRUnlock")
+    /\ UNCHANGED <<list, cst, res, work, cancelled, spawned, fatals, w, sp, calls, ret, par, jn, joins>>
+
+WatchStep == WatchRLock \/ WatchRUnlock
 
 HostCancel ==
     /\ AllowCancel /\ ~cancelled /\ calls > 0
     /\ cancelled' = TRUE
     /\ H(-1, "Cancel")
-    /\ UNCHANGED <<list, rw, cst, res, work, spawned, fatals, w, sp, calls, ret>>
+    /\ UNCHANGED <<list, rw, cst, res, work, spawned, fatals, w, sp, calls, ret>> /\ UNCHANGED ext
 
 -----------------------------------------------------------------------------
 (* Wait.  The waiter's pcs                                                 *)
@@ -147,7 +228,7 @@ HostCancel ==
 (*           err: errL errC errU -> drain: snapshot, blocking receive of   *)
 (*                every remaining core, removal as in the nil case,        *)
 (*                until the list is empty -> return                        *)
-Others == <<cst, res, work, cancelled, spawned, fatals, sp, calls>>
+Others == <<cst, res, work, cancelled, spawned, fatals, sp, calls, par, jn, joins, wt>>
 Fixed == Variant = "fixed"
 
 WaitRLock ==             \* RLock(); the slice header is read once (range / coreSnapshot)
@@ -182,7 +263,7 @@ WaitPoll ==              \* select { case i := <-core.SignalHandle: ... default:
        ELSE /\ cst' = cst
             /\ w' = [w EXCEPT !.i = w.i + 1]
             /\ H(0, "WaitPollEmpty")
-    /\ UNCHANGED <<list, rw, res, work, cancelled, spawned, fatals, sp, calls, ret>>
+    /\ UNCHANGED <<list, rw, res, work, cancelled, spawned, fatals, sp, calls, ret>> /\ UNCHANGED ext
 
 \* ---- a core finished with nil: remove it from the list
 WaitNilRUnlock ==
@@ -244,7 +325,7 @@ WaitErrCancel ==         \* (*self.CancelFunc)(); orig: the list is cleared; fix
     /\ list' = IF Fixed THEN CoreRemove(list, w.got) ELSE <<>>
     /\ w' = [w EXCEPT !.pc = "errU"]
     /\ H(0, "WaitErrCancel")
-    /\ UNCHANGED <<rw, cst, res, work, spawned, fatals, sp, calls, ret>>
+    /\ UNCHANGED <<rw, cst, res, work, spawned, fatals, sp, calls, ret>> /\ UNCHANGED ext
 
 WaitErrUnlock ==
     /\ w.pc = "errU"
@@ -269,7 +350,7 @@ WaitDrainRecv ==         \* <-other.SignalHandle  (blocking)
         /\ cst' = [cst EXCEPT ![c] = "done"]
         /\ w' = [w EXCEPT !.got = c, !.pc = "nilL"]      \* removal of c goes through the same write-locked path
     /\ H(0, "WaitDrainRecv")
-    /\ UNCHANGED <<list, rw, res, work, cancelled, spawned, fatals, sp, calls, ret>>
+    /\ UNCHANGED <<list, rw, res, work, cancelled, spawned, fatals, sp, calls, ret>> /\ UNCHANGED ext
 
 WaitReturnErr ==
     /\ Fixed /\ w.pc = "retErr"
@@ -298,12 +379,18 @@ WaitStep == WaitRLock \/ WaitSnapUnlock \/ WaitPoll \/ WaitNilRUnlock \/ WaitNil
             \/ WaitDrainRecv \/ WaitReturnErr \/ WaitReturnNil \/ WaitPassEnd
 
 SpawnStep(s) == SpawnLock(s) \/ SpawnAppend(s) \/ SpawnUnlock(s) \/ SpawnGo(s)
-CoreStep(c) == CoreWork(c) \/ CoreOffer(c) \/ SpawnStep(c)
+CoreStep(c) == CoreWork(c) \/ CoreOffer(c) \/ SpawnStep(c) \/ JoinStep(c)
 
-Next == WaitStep \/ SpawnStep(0) \/ HostCancel \/ \E c \in Cores : CoreStep(c)
+\* everything but the watcher (which may go round for ever while cores are listed)
+Main == WaitStep \/ SpawnStep(0) \/ HostCancel \/ \E c \in Cores : CoreStep(c)
+Next == Main \/ WatchStep
 
 Spec == Init /\ [][Next]_vars
 FairSpec == Spec /\ WF_vars(WaitStep) /\ WF_vars(SpawnStep(0)) /\ \A c \in Cores : WF_vars(CoreStep(c))
+\* with a watcher: sync.RWMutex does not let readers starve a writer (a blocked Lock keeps new readers out), hence strong
+\* fairness for the acquisitions of the write lock, which the watcher's read locks enable and disable over and over
+FairSpecW == FairSpec /\ WF_vars(WatchStep)
+             /\ SF_vars(WaitNilLock) /\ SF_vars(WaitErrLock) /\ \A s \in Spawners : SF_vars(SpawnLock(s))
 
 -----------------------------------------------------------------------------
 (* What C10 / C16 / C17 require *)
@@ -317,24 +404,40 @@ FatalReported == (Returned /\ ret.k = "nil") => \A c \in Cores : cst[c] = "done"
 ReportedIsReal == (Returned /\ ret.k = "err") => cst[ret.c] = "done" /\ res[ret.c] = ret.i /\ ret.i # "nil"
 
 \* nothing is left behind that blocks a later call
-LocksReleasedOnReturn == Returned => rw.r = 0 /\ ~rw.w
+LocksReleasedOnReturn == Returned => rw.r = wt.n /\ ~rw.w       \* (a watcher may be inside one of its looks)
 ListEmptyOnReturn == Returned => list = <<>>
 
 \* the read/write lock is used consistently
 LockDiscipline == ~(rw.w /\ rw.r > 0) /\ rw.r >= 0
 
 \* no core stays blocked on its hand-off forever: whenever nothing can move any more, no core is offering
-NoCoreStranded == (~ENABLED Next) => \A c \in Cores : cst[c] # "offer"
+\* nothing can move any more (a watcher inside its read lock is about to release it; one that cannot move does not count)
+Stuck == ~ENABLED Main /\ (wt.n = 0 \/ ~ENABLED WatchStep)
+NoCoreStranded == Stuck => \A c \in Cores : cst[c] # "offer"
 
 \* and the host can always go on: a terminal state is one where all calls were made and returned
-DeadlockFree == (~ENABLED Next) => (calls = MaxCalls \/ Cardinality({c \in Cores : cst[c] # "unborn"}) = MaxCores) /\ Returned
+DeadlockFree == Stuck => (calls = MaxCalls \/ Cardinality({c \in Cores : cst[c] # "unborn"}) = MaxCores) /\ Returned
+
+\* a join ends only after the thread has ended, with its result only if there is one
+JoinSound == \A c \in Cores : /\ jn[c].st # "none" => cst[c] = "run" /\ cst[jn[c].d] # "unborn"
+                              /\ jn[c].st = "failed" => Ended(jn[c].d) /\ res[jn[c].d] # "nil"
+JoinEndsAfterThread == [][\A c \in Cores : (jn[c].st = "wait" /\ jn'[c].st = "none" /\ cst'[c] = "run")
+                                             => Ended(jn[c].d) /\ res[jn[c].d] = "nil"]_vars
+\* nobody is left inside a join when the wait has returned
+NoJoinerLeft == Returned => \A c \in Cores : jn[c].st = "none"
+
+\* the watcher returns only on an empty list, and holds nothing afterwards
+WatchSound == wt.pc = "ret" => wt.seen = 0 /\ wt.n = 0
+WatchHoldsNoLockWhileCoresRun == (Watch = "fixed" /\ wt.pc = "look") => wt.n = 0
 
 \* liveness (checked under FairSpec only): cancellation leads to the wait returning, every offer is taken
 CancelLeadsToReturn == (cancelled /\ calls > 0) ~> (w.pc = "idle")
 OffersAreTaken == \A c \in Cores : (cst[c] = "offer") ~> (cst[c] = "done")
+JoinsEnd == \A c \in Cores : (jn[c].st # "none") ~> (jn[c].st = "none")
+WatchReturns == (wt.pc = "look") ~> (wt.pc = "ret")
 
 \* export of schedules (simulation mode with RecordHist = TRUE)
-Quiescent == ~ENABLED Next
+Quiescent == ~ENABLED Main
 ExportSched == Quiescent => PrintT(<<"SCHED", ToJson([hist |-> hist, ret |-> ret, cst |-> [c \in Cores |-> cst[c]],
                                                        res |-> [c \in Cores |-> res[c]], rw |-> rw, list |-> list])>>)
 =============================================================================
